@@ -47,6 +47,12 @@ CHECKS = {
  "C20": dict(cat="model_checking", tech="explicit-state BFS over healthy storages x exhaustive single-slab corruption enumeration (fault enumeration per state)",
    text="For every state of the explored spaces (two roots, large values, standalone/inlined children, external collision groups, multi-level trees), fully loaded on persistent and basic storages: health check succeeds with exactly the live roots; every referenced slab deleted in four ways, an unreferenced slab added, a second reference to every referenced slab from every same-owner root, and a foreign-owner child each make it fail; GetAllChildReferences equals the independent (resolvable, broken) partition for every slab, healthy and after each deletion.",
    note="Corruptions are single-slab and built through public APIs.", ref="§5 C20"),
+ "C14": dict(cat="fault_enumeration", tech="exhaustive enumeration of failing-ledger-mutation sets (size <= k, across retries) per history x commit kind x worker count on the real commit code",
+   text="For every prefix of a corpus of histories with pending stores/deletions under three owners and the temporary address, both commits, 1-3 workers: every set of up to k failing ledger mutations (k=2 quick, 3 thorough; positions counted across retries) is injected; after each failed attempt an external error is returned, unwritten changes are still pending (same slab objects), Retrieve of every identifier and deep reads return the latest values, no slab is written twice with different bytes; retry until success converges to the byte-identical fault-free ledger.",
+   note="With >1 workers the order-relaxed commit's store order comes from real scheduling here; the oracle is schedule-independent. Schedule enumeration is C16's subject.", ref="§5 C14"),
+ "C19": dict(cat="exploration", tech="bounded-exhaustive input enumeration: all short byte strings + complete one-edit neighbourhood (truncations, all single-byte substitutions, item deletions/duplications, splices) of a generated corpus of v1 and v0 registers",
+   text="All byte strings of length <= 3, all 4-byte strings with a dispatching head, and for every register of a corpus generated by the other drivers (every slab kind, inlined/compact/collision shapes, large values, plus accepted version-0 re-encodings): every truncation, every single-byte substitution, CBOR item deletion/duplication and item-boundary splices; oracle: no panic, returns within a 20 s watchdog, allocation per input bounded linearly in input length (batch-measured with drill-down), accessors of decoded slabs and the header queries panic-free; workers run under ulimit -v so a fatal out-of-memory is caught as a violation.",
+   note="The property quantifies over all byte strings; only the stated neighbourhood is decided (exploration level, not a proof).", ref="§5 C19"),
  "C09": dict(cat="model_checking", tech="explicit-state BFS; independent reachability oracle (storage IDs == reachable IDs) before and after commit",
    text="With the harness disposing of every value handed back, after every transition (and again after commit) the slab IDs held by write set + ledger must equal the IDs reachable from live roots by an independent traversal, each referenced once, one owner per tree; alphabets are biased to auxiliary slabs (externalised values/keys, inline<->standalone children, bulk pops).",
    note="CheckStorageHealth is used only as a second opinion (C20 decides its trustworthiness).", ref="§5 C09"),
